@@ -161,6 +161,10 @@ def run_nasty(extra=None, tag="nasty"):
                 texts["cyclic-" + k9] = files9["main.oal"]
     except Exception:
         pass
+    # short and deep: nothing but one nested expression (few tokens, many levels)
+    for d9 in (12, 16, 20, 28):
+        texts["short-deep-parens-%d" % d9] = "let a = " + "(" * d9 + "num" + ")" * d9 + ";\n"
+        texts["short-deep-arrays-%d" % d9] = "let a = " + "[" * d9 + "num" + "]" * d9 + ";\n"
     # a long file that ends in a deep nest: whatever the parser remembers must keep working however much came before
     texts["long-file-then-deep-nest"] = "".join("let v%d = { 'a num, 'b [str] };\n" % i for i in range(8000)) + \
         "let z = " + "{ 'n " * 12 + "num" + " }" * 12 + ";\nres / on get -> <z>;\n"
